@@ -23,6 +23,13 @@ CLAIMS = {
     },
 }
 
+# further claims live in tools/claims/Cxx.json (same keys), one file per property
+_cd = os.path.join(ROOT, "tools", "claims")
+if os.path.isdir(_cd):
+    for _f in sorted(os.listdir(_cd)):
+        if _f.endswith(".json"):
+            CLAIMS[_f[:-5]] = json.load(open(os.path.join(_cd, _f)))
+
 PENDING_REASON = "check not built yet in this round (planned: see DESIGN.md §5); nothing is claimed for it"
 
 
